@@ -17,7 +17,6 @@ inductive Kind where
   | collectSort    -- guarded append + `sort.Strings` afterwards                       (passes_equiv, sortStrings_perm)
   | singleSource   -- append what each entry contributes; ≤ 1 entry contributes       (gather_perm; otherwise Out)
   | lastWriter     -- `rev[v] = k`: order-free iff the map is injective               (reverseMap_perm; otherwise F_aliasDup)
-  | firstMatch     -- `return` at the first match: order-free iff all matches agree   (getGoFile_perm; otherwise F_getGoFile)
   | message        -- the order only reaches a log line                               (F_msgOrder)
   deriving DecidableEq, Repr
 
@@ -34,14 +33,13 @@ def siteTable : List ((String × String × String) × Kind) := [
   (("internal/restclient", "extractStructFields", "pkg.Files"), .singleSource),
   (("internal/restclient", "extractStructFields", "pkgs"), .singleSource),
   (("internal/restclient", "parseHeaders", "kvMap"), .distinctKeys),
-  (("internal/shoot", "(*GeneratorBase).LoadPackage", "g.overlay"), .message),             -- `-v` debug line only
-  (("internal/shoot", "getGoFile", "pkg.TypesInfo.Defs"), .firstMatch)
+  (("internal/shoot", "(*GeneratorBase).LoadPackage", "g.overlay"), .message)              -- `-v` debug line only
 ]
 
 /-- sites whose order-independence needs a condition on the input; the condition's failure is a finding region
     (the unchanged code is non-deterministic there) or lies outside the input domain -/
 def conditional : Kind → Bool
-  | .singleSource | .lastWriter | .firstMatch | .message => true
+  | .singleSource | .lastWriter | .message => true
   | _ => false
 
 /-! ## The composed run -/
@@ -53,7 +51,7 @@ structure Oracle where
 
 /-- the facts the sites iterate over (each a Go map, so with distinct keys) -/
 structure Input where
-  defs : List Def                                   -- pkg.TypesInfo.Defs
+  defs : List Def                                   -- the definitions of the package (scope look-up, not iterated)
   typeNames : List String                           -- the `-type` list
   alias : Entries String String                     -- rest: parameter ↦ placeholder
   pathParams : List String
@@ -83,7 +81,7 @@ def hdrTables (o : Oracle) (i : Input) : Entries String (Entries String String) 
   (o.order "cookClient/headers" i.headers).foldl (fun tabs e => eachTable tabs e.1 e.2) (o.order "cookClient/DefaultHeaders" i.tables)
 
 def run (o : Oracle) (i : Input) : Output :=
-  { goFiles := i.typeNames.map (fun t => getGoFile (o.order ("getGoFile/" ++ t) i.defs) t),
+  { goFiles := i.typeNames.map (fun t => getGoFile i.defs t),
     pathParams := realPathParams (o.order "cookClient/asMap" i.alias) i.pathParams,
     parsedHeader := fun k => get (putAll (o.order "parseHeaders/kvMap" i.kv) []) k,
     header := fun verb key => (get (hdrTables o i) verb).bind (fun tab => get tab key),
@@ -103,20 +101,17 @@ def isMaps (i : Input) : Prop :=
   (keys i.alias).Nodup ∧ (keys i.headers).Nodup ∧ (keys i.kv).Nodup ∧ (keys i.tables).Nodup ∧
   (keys i.outputs).Nodup ∧ (∀ p ∈ i.passes, (keys p.2.2).Nodup)
 
-/-- all `TypeName` definitions of a requested name sit in one file (in particular: the name is unique) -/
-def goFileUnique (i : Input) : Prop :=
-  ∀ t ∈ i.typeNames, ∃ f, ∀ d ∈ i.defs, (d.isTypeName && d.name = t) = true → d.file = f
-
 /-- no two parameters are aliased to the same placeholder -/
 def aliasInjective (i : Input) : Prop := (i.alias.map (·.2)).Nodup
 
 /-- the struct of a query parameter is declared in one file of one package -/
 def singleDecl (i : Input) : Prop := (i.structFiles.filter (fun e => !e.2.isEmpty)).length ≤ 1
 
-def WF (i : Input) : Prop := isMaps i ∧ goFileUnique i ∧ aliasInjective i ∧ singleDecl i
+def WF (i : Input) : Prop := isMaps i ∧ aliasInjective i ∧ singleDecl i
 
 /-! decidable versions for the driver -/
 
+/-- what `getGoFileBefore` could return over all iteration orders -/
 def goFileCandidates (defs : List Def) (t : String) : List String :=
   ((defs.filter (fun d => d.isTypeName && d.name = t)).map (·.file)).eraseDups
 
